@@ -598,7 +598,18 @@ def _splice(st, fn, cls, helpers, caller_names, in_try=False, caller_bound=froze
     prologue, body = inst
     if isinstance(st, ast.Assign):
         tnames = {y.id for t in st.targets for y in ast.walk(t) if isinstance(y, ast.Name)}
-        if not all(isinstance(t, (ast.Name, ast.Tuple, ast.List)) or _simple_arg(t) for t in st.targets):
+        def ref_target(t):
+            # the target's own parts are evaluated after the value: names, attribute chains and constant / name subscripts change nothing
+            if isinstance(t, ast.Name):
+                return True
+            if isinstance(t, (ast.Tuple, ast.List)):
+                return all(ref_target(x) for x in t.elts)
+            if isinstance(t, ast.Attribute):
+                return ref_target(t.value)
+            if isinstance(t, ast.Subscript):
+                return ref_target(t.value) and isinstance(t.slice, (ast.Constant, ast.Name))
+            return False
+        if not all(ref_target(t) for t in st.targets):
             return None
         # a subscript / attribute target is evaluated AFTER the call: fine, k() emits the store at the return points
         del tnames
